@@ -433,6 +433,9 @@ def scene_pointers(c):
              "chk_i64((long)%s); chk_i64(p - a);" % val("*--p"),
              "chk_i64((char *)(p + 1) - (char *)p);",
              "{ void *v = q; %s *r = v; chk_i64(r == q); chk_i64(!v); chk_i64(v && 1); }" % et,
+             # equality with the operands in every order: null pointer constant first, void pointer first, const-qualified side
+             "{ void *v = q; const void *cv = p; %s *z0 = 0; chk_i64(0 == q); chk_i64(0 != z0); chk_i64((void *)0 == z0); chk_i64((void *)0 != q); chk_i64(v == q); chk_i64(q == v);"
+             " chk_i64(v != p); chk_i64(cv == p); chk_i64(p != cv); chk_i64(cv == v); chk_i64(nullptr == z0); chk_i64(q != nullptr); chk_i64(0 == v); chk_i64(z0 == (void *)0); }" % et,
              "{ unsigned char *b = (unsigned char *)&anchor[1]; chk_u64(b[0] + 256u * b[1]); }"]
     if et in ("int", "long", "short"):
         body += ["*p += %d; p[%d] -= 2; (*p)++; --*p; chk_i64(*p); chk_i64(a[%d]);" % (d(st.integers(-5, 5)), ln - 1, ln - 1),
